@@ -391,3 +391,93 @@ def _shared_cache(ck, rng):
                 ck.traces += 1
     ck.extra["shared_cache_schedules_in_model"] = len(scheds)
     ck.extra["shared_cache_schedules_replayed"] = n
+    _shared_cache_processes(ck, rng, scheds, inp, out, jac, own)
+
+
+def _shared_cache_processes(ck, rng, scheds, inp, out, jac, own):
+    """The same schedules with the workers in SEPARATE PROCESSES (fork) that inherited one cache object
+    (shared-memory MemoryFullCache, HDF5Cache): worker w performs its own calls, in the model's global
+    order (a controller sends one command at a time over a pipe and waits for the acknowledgement)."""
+    from gemseo.caches.hdf5_cache import HDF5Cache
+    from gemseo.caches.memory_full_cache import MemoryFullCache
+
+    ctx = mp.get_context("fork")
+
+    def worker(conn, cache, v):
+        import logging
+        logging.disable(logging.CRITICAL)
+        while True:
+            op = conn.recv()
+            try:
+                if op == "stop":
+                    conn.send("bye")
+                    return
+                if op == "out":
+                    cache.cache_outputs(inp(v), out(v))
+                    conn.send(("ok", None))
+                elif op == "jac":
+                    cache.cache_jacobian(inp(v), jac(v))
+                    conn.send(("ok", None))
+                else:
+                    conn.send(("ok", own(cache[inp(v)], v)))
+            except Exception as ex:  # noqa: BLE001
+                conn.send(("exc", repr(ex)))
+
+    n = 0
+    plan = [("MemoryFullCache", 40 if ck.thorough else 10), ("HDF5Cache", 40 if ck.thorough else 10)]
+    for kind, k in plan:
+        for xs, sched, entries in rng.sample(scheds, min(k, len(scheds))):
+            if kind == "HDF5Cache":
+                n_h5 = len(list(ck.work.glob("scp*.h5")))
+                cache = HDF5Cache(hdf_file_path=str(ck.work / f"scp{n_h5}.h5"), hdf_node_path="node")
+            else:
+                cache = MemoryFullCache()
+            sig = {"what": "shared_cache_processes", "cache": kind}
+            case = {"cache": kind, "backend": "processes", "inputs": list(xs), "schedule": [list(s) for s in sched]}
+            pipes, procs = {}, []
+            for w, v in enumerate(xs, 1):
+                a, b = ctx.Pipe()
+                pr = ctx.Process(target=worker, args=(b, cache, v), daemon=True)
+                pr.start()
+                pipes[w] = a
+                procs.append(pr)
+            bad = None
+            for w, op in sched:
+                pipes[w].send(op)
+                if not pipes[w].poll(30):
+                    bad = f"worker {w} did not answer to {op}"
+                    break
+                status, val = pipes[w].recv()
+                if status == "exc":
+                    bad = f"worker {w} {op}: {val}"
+                    sig["exception"] = val.split("(")[0]
+                    break
+                if op == "get" and (val[0] not in (0, xs[w - 1]) or val[1] not in (0, xs[w - 1])):
+                    bad = f"worker {w} (input {xs[w - 1]}) was served another input's data: {val}"
+                    break
+            for w in pipes:
+                try:
+                    pipes[w].send("stop")
+                except Exception:  # noqa: BLE001
+                    pass
+            for pr in procs:
+                pr.join(10)
+                if pr.is_alive():
+                    pr.kill()
+            if bad is None:
+                try:
+                    got = []
+                    for e in cache.get_all_entries():
+                        v = int(e.inputs["a"][0])
+                        got.append((v,) + own(e, v))
+                    if sorted(got) != sorted(entries):
+                        bad = f"final entries impl {sorted(got)} spec {sorted(entries)}"
+                except Exception as ex:  # noqa: BLE001
+                    bad = f"exception reading the cache in the parent: {ex!r}"
+                    sig["exception"] = type(ex).__name__
+            if bad:
+                ck.violation("SharedCacheSameAsSequential", sig, dict(case, problem=bad))
+            else:
+                n += 1
+                ck.traces += 1
+    ck.extra["shared_cache_process_schedules_replayed"] = n
